@@ -100,19 +100,21 @@ type Engine struct {
 	fnByKey    map[string]*ssa.Function
 	repoPrefix string
 	files      []*ContractFile
+	bufT       types.Type
+	pkgInvs    map[string][]Clause
 }
 
 func typeKey(t types.Type) string { return types.TypeString(types.Unalias(t), nil) }
 
 var ghostLayouts = map[string][]Comp{
 	"math/big.Int":     {{Path: "val", Sort: SInt, Kind: "ghost"}},
-	"bytes.Buffer":     {{Path: "arr", Sort: SArr, Kind: "ghost"}, {Path: "len", Sort: SInt, Kind: "ghostlen"}},
-	"bytes.Reader":     {{Path: "arr", Sort: SArr, Kind: "ghost"}, {Path: "len", Sort: SInt, Kind: "ghostlen"}},
+	"bytes.Buffer":     {{Path: "arr", Sort: SArr, Kind: "bytearr"}, {Path: "off", Sort: SInt, Kind: "ghostlen"}, {Path: "len", Sort: SInt, Kind: "ghostlen"}},
+	"bytes.Reader":     {{Path: "arr", Sort: SArr, Kind: "bytearr"}, {Path: "off", Sort: SInt, Kind: "ghostlen"}, {Path: "len", Sort: SInt, Kind: "ghostlen"}},
 	"sync.Mutex":       {{Path: "held", Sort: SBool, Kind: "ghost"}},
 	"sync.RWMutex":     {{Path: "held", Sort: SBool, Kind: "ghost"}},
 	"sync.Once":        {{Path: "done", Sort: SBool, Kind: "ghost"}},
 	"time.Time":        {{Path: "t", Sort: SInt, Kind: "ghost"}},
-	"strings.Builder":  {{Path: "arr", Sort: SArr, Kind: "ghost"}, {Path: "len", Sort: SInt, Kind: "ghostlen"}},
+	"strings.Builder":  {{Path: "arr", Sort: SArr, Kind: "bytearr"}, {Path: "off", Sort: SInt, Kind: "ghostlen"}, {Path: "len", Sort: SInt, Kind: "ghostlen"}},
 	"log/slog.Logger":  {{Path: "x", Sort: SInt, Kind: "ghost"}},
 	"reflect.Value":    {{Path: "x", Sort: SInt, Kind: "ghost"}},
 	"sync.WaitGroup":   {{Path: "x", Sort: SInt, Kind: "ghost"}},
@@ -392,6 +394,9 @@ func derefT(t types.Type) types.Type {
 
 func (e *Engine) heapKey(kind string, t types.Type, j int) (string, Sort) {
 	l := e.layout(t)
+	if j >= len(l) {
+		panic(unsupported{fmt.Sprintf("heap access to component %d of %s (layout has %d)", j, typeKey(t), len(l))})
+	}
 	k := fmt.Sprintf("%s:%s#%d", kind, typeKey(t), j)
 	var s Sort
 	if kind == "M" {
@@ -408,6 +413,12 @@ func (e *Engine) heapKey(kind string, t types.Type, j int) (string, Sort) {
 // component is within the range of its Go type (memory invariant).
 func (e *Engine) rangeAxiom(key string, t Term) Term {
 	cp, ok := e.heapComps[key]
+	if ok && cp.Kind == "bytearr" && t.Sort == ArrOf(SArr) {
+		r := Term{"r$x", SInt}
+		i := Term{"i$x", SInt}
+		cell := Select(Select(t, r), i)
+		return Forall([]Term{r, i}, And(Le(IntLit(0), cell), Le(cell, IntLit(255))), cell)
+	}
 	if !ok || cp.Kind != "int" || cp.Lo == nil {
 		return TTrue
 	}
@@ -441,6 +452,8 @@ type Exec struct {
 	initHeap map[string]Term
 	writeLog map[string]bool
 	lwLog    map[ssa.Value]bool
+	wildLog  map[string]bool
+	refLog   map[string]map[string]Term
 	logging  bool
 	cur      *checkEnv
 	closures map[*ssa.MakeClosure]bool
@@ -458,6 +471,11 @@ func (x *Exec) heapGet(st *State, key string) Term {
 	if !ok {
 		panic("heap key without sort: " + key)
 	}
+	if x.cur != nil && x.cur.fc != nil && x.cur.fc.PkgInit && strings.HasPrefix(key, "G:") {
+		// package initialisation starts from zeroed package-level variables
+		st.base[key] = zeroOf(srt)
+		return st.base[key]
+	}
 	t := x.ctx.FreshGlobal("H0_"+shortKey(key), srt)
 	if ax := x.eng.rangeAxiom(key, t); ax.S != "true" {
 		x.ctx.globals = append(x.ctx.globals, "(assert "+ax.S+")")
@@ -474,6 +492,27 @@ func shortKey(k string) string {
 }
 
 func (x *Exec) heapSet(st *State, key string, t Term) {
+	st.heap[key] = t
+	if x.logging {
+		x.writeLog[key] = true
+		x.wildLog[key] = true // written at an unknown reference
+	}
+}
+
+// heapSetAt records a write to one known object reference.
+func (x *Exec) heapSetAt(st *State, key string, t Term, ref Term) {
+	st.heap[key] = t
+	if x.logging {
+		x.writeLog[key] = true
+		if x.refLog[key] == nil {
+			x.refLog[key] = map[string]Term{}
+		}
+		x.refLog[key][ref.S] = ref
+	}
+}
+
+// heapSetFresh records a change that leaves all previously allocated objects alone.
+func (x *Exec) heapSetFresh(st *State, key string, t Term) {
 	st.heap[key] = t
 	if x.logging {
 		x.writeLog[key] = true
@@ -648,20 +687,20 @@ func (x *Exec) Store(st *State, p *Ptr, v *Value) {
 			h := x.heapGet(st, key)
 			row := Select(h, p.Heap)
 			cellv := storeN(Select(row, p.Idx), idx, v.C[j])
-			x.heapSet(st, key, x.ctx.Name("M", Store(h, p.Heap, Store(row, p.Idx, cellv))))
+			x.heapSetAt(st, key, x.ctx.Name("M", Store(h, p.Heap, Store(row, p.Idx, cellv))), p.Heap)
 		}
 	default:
 		if at, ok := p.RootT.Underlying().(*types.Array); ok && !isGhostType(p.RootT) {
 			for j := 0; j < n; j++ {
 				key, _ := e.heapKey("M", at.Elem(), j)
-				x.heapSet(st, key, x.ctx.Name("M", Store(x.heapGet(st, key), p.Heap, v.C[j])))
+				x.heapSetAt(st, key, x.ctx.Name("M", Store(x.heapGet(st, key), p.Heap, v.C[j])), p.Heap)
 			}
 			return
 		}
 		for j := 0; j < n; j++ {
 			key, _ := e.heapKey("H", p.RootT, off+j)
 			h := x.heapGet(st, key)
-			x.heapSet(st, key, x.ctx.Name("H", Store(h, p.Heap, storeN(Select(h, p.Heap), idx, v.C[j]))))
+			x.heapSetAt(st, key, x.ctx.Name("H", Store(h, p.Heap, storeN(Select(h, p.Heap), idx, v.C[j]))), p.Heap)
 		}
 	}
 }
